@@ -3,8 +3,8 @@
    Only statements (closed by `exact`), Print Assumptions, and examples.
    Model: Model/Tok.v (Tokenizer.parse, character-exact), Model/TokPos.v (positions, hand-overs, reach). *)
 From Coq Require Import ZArith NArith List Bool String.
-From JMCV Require Import Model.Tok Model.TokPos Model.TokDerived Model.TokCite
-  Proofs.Tok Proofs.TokPos Proofs.TokProps Proofs.TokDerived Proofs.TokCite.
+From JMCV Require Import Model.Tok Model.TokPos Model.TokDerived Model.TokCite Model.TokArgs Model.TokEnd
+  Proofs.Tok Proofs.TokPos Proofs.TokProps Proofs.TokDerived Proofs.TokCite Proofs.TokArgs Proofs.TokEnd Proofs.TokRound4.
 Import ListNotations.
 Open Scope Z_scope.
 
@@ -168,4 +168,178 @@ Example C14_nonvacuous :
 }"%string in
   deep_find (fun _ => None) (fun _ => true) repaired 10 file 1 1 true (of_string "zz"%string) = [(2, 27)] /\
   pos_of file 36 = (2, 27) /\ nth_error file 36 = Some 122%N.
+Proof. vm_compute. repeat split. Qed.
+
+(* ====================================================================================================================
+   Strengthening round 4.
+
+   (g) WHICH token the argument-list parsers cite (Model.TokArgs: parse_func_args / parse_js_obj / parse_component /
+       parse_list / parse_param walk `kws`, the first statement of the inner tokenizer run of the bracket's content).
+   Every diagnostic they raise cites an ELEMENT of kws - a token of a tokenizer run, which C14_tok_pos / C14_nested place
+   at its own text at every depth ... *)
+Theorem C14_args_cite_given_token : forall kws d t, func_args false kws = ADiag d t -> In t kws.
+Proof. exact (func_args_cites_given false). Qed.
+Print Assumptions C14_args_cite_given_token.
+
+Theorem C14_pairs_cite_given_token : forall op kws d t, pairs false op kws = ADiag d t -> In t kws.
+Proof. exact (pairs_cites_given false). Qed.
+Print Assumptions C14_pairs_cite_given_token.
+
+Theorem C14_list_cites_given_token : forall kws d t, list_items kws = ADiag d t -> In t kws.
+Proof. exact list_items_cites_given. Qed.
+Print Assumptions C14_list_cites_given_token.
+
+Theorem C14_params_cite_given_token : forall kws d t, params kws = ADiag d t -> In t kws.
+Proof. exact params_cites_given. Qed.
+Print Assumptions C14_params_cite_given_token.
+
+(* ... so the cited (line, col) is the position of the first character of the cited token's own text *)
+Theorem C14_args_diag_faithful : forall uni printable alms es asemi sub line col progs kws d t,
+  parse uni printable alms es asemi sub line col = Ok progs -> In kws progs ->
+  (func_args false kws = ADiag d t \/ (exists op, pairs false op kws = ADiag d t) \/
+   list_items kws = ADiag d t \/ params kws = ADiag d t) ->
+  exists d0 r, sub = d0 ++ r /\ (t_line t, t_col t) = pos_after (line, col) d0 /\ token_src t r.
+Proof. exact p_args_diag_faithful. Qed.
+Print Assumptions C14_args_diag_faithful.
+
+(* "Unexpected comma in function arguments" cites `keywords[comma_token_index]`, a RUNNING INDEX the loop keeps.  For every
+   token list: the cited token is the FIRST OFFENDING COMMA - a separator with nothing between it and the previous separator
+   (or the start of the list), and no such separator stands in front of it.  (Loop invariant Proofs.TokArgs.walk: the index is
+   the number of tokens walked, which end in a separator.) *)
+Theorem C14_args_comma_first_offending : forall kws t,
+  func_args false kws = ADiag AComma t ->
+  exists i, nth_error kws i = Some t /\ offending_comma kws i /\ (forall j, (j < i)%nat -> ~ offending_comma kws j).
+Proof. exact func_args_comma_is_first_offending. Qed.
+Print Assumptions C14_args_comma_first_offending.
+
+(* the same for "Unexpected comma in JSObject/NBT" (op = ":") and "... in component" (op = "=") *)
+Theorem C14_pairs_comma_first_offending : forall op kws t,
+  pairs false op kws = ADiag AComma t ->
+  exists i, nth_error kws i = Some t /\ offending_comma kws i /\ (forall j, (j < i)%nat -> ~ offending_comma kws j).
+Proof. exact pairs_comma_is_first_offending. Qed.
+Print Assumptions C14_pairs_comma_first_offending.
+
+(* The variant the fourth round of bug seeding planted (`late`: the index is advanced at the END of the loop body, which the
+   `continue` of the keyword-argument branch skips) never cites a token behind the first offending comma ... *)
+Theorem C14_args_comma_late_in_front : forall kws t,
+  func_args true kws = ADiag AComma t ->
+  exists i i0, nth_error kws i = Some t /\ (i <= i0)%nat /\ first_offending kws i0.
+Proof. exact func_args_late_cites_in_front. Qed.
+Print Assumptions C14_args_comma_late_in_front.
+
+(* ... and behind a leading keyword argument `key = value` it cites a token STRICTLY in front of it, which is not an
+   offending comma: positional-only argument lists cannot tell the variant from the tree (why the plants of the earlier
+   rounds did not see it), a doubled comma anywhere behind a keyword argument does. *)
+Theorem C14_args_comma_late_after_keyword : forall k e v s rest t,
+  is_sep k = false -> is_sep e = false -> is_sep v = false -> is_sep s = true ->
+  mem_str (t_str e) [s_eq; s_eq_plus; s_eq_minus] = true ->
+  func_args true (k :: e :: v :: s :: rest) = ADiag AComma t ->
+  exists i i0, nth_error (k :: e :: v :: s :: rest) i = Some t /\ (i < i0)%nat /\
+               first_offending (k :: e :: v :: s :: rest) i0 /\ ~ offending_comma (k :: e :: v :: s :: rest) i.
+Proof. exact func_args_late_after_keyword. Qed.
+Print Assumptions C14_args_comma_late_after_keyword.
+
+(* the FUNC token parse_func_args makes of the body of an arrow-function argument (col + 1): the position of the first
+   character behind the brace *)
+Theorem C14_func_token_pos : forall p0 s t body,
+  faithful_from p0 s t -> t_type t = PAREN_CURLY -> t_str t = c_lcurly :: body ->
+  exists d r, s = d ++ c_lcurly :: r /\ (t_line t, t_col t) = pos_after p0 d /\
+              (t_line t, t_col t + 1) = pos_after p0 (d ++ [c_lcurly]).
+Proof. exact p_func_token_pos. Qed.
+Print Assumptions C14_func_token_pos.
+
+(* hypotheses satisfiable: the argument list `selector=@a,, message="x"` re-tokenised at (1, 14): the tree cites the second
+   comma (col 26), the variant the keyword `selector` (col 14) *)
+Example C14_args_comma_nonvacuous :
+  match parse (fun _ => None) (fun _ => true) false false false (of_string "selector=@a,, message=""x"""%string) 1 14 with
+  | Ok [kws] =>
+    match func_args false kws, func_args true kws with
+    | ADiag AComma t, ADiag AComma t' =>
+      (t_type t, t_line t, t_col t) = (COMMA, 1, 26) /\ (t_type t', t_line t', t_col t') = (KEYWORD, 1, 14)
+    | _, _ => False
+    end
+  | _ => False
+  end.
+Proof. vm_compute. repeat split. Qed.
+
+(* (h) where a token ENDS (Model.TokEnd).  `col_length` diagnostics cite Token.end.  The repaired tokenizer records, in the
+   iteration that reads the closing quote, the end (self.line, self.col + 1) of every string literal (parse_ends: Model.Tok.step
+   unchanged + that record).  For every text, start position and mode: parse_ends has the tokens of Model.Tok.parse, every
+   STRING token has a recorded end, and every recorded (start, end) delimits a string literal of the text:
+   text = d ++ (q :: body ++ [cl]) ++ r, start = position after d, end = position after d ++ q :: body ++ [cl]. *)
+Theorem C14_string_end_recorded : forall uni printable alms es asemi s line col progs ends,
+  parse_ends uni printable alms es asemi s line col = Ok (progs, ends) ->
+  parse uni printable alms es asemi s line col = Ok progs /\
+  (forall a e, In (a, e) ends -> lit_span (line, col) s a e) /\
+  forall stmt t, In stmt progs -> In t stmt -> t_type t = STRING ->
+    exists e, lookup_end (t_line t, t_col t) ends = Some e.
+Proof. exact parse_ends_spec. Qed.
+Print Assumptions C14_string_end_recorded.
+
+(* Token.end of EVERY token of a run, whatever its kind (keyword, operator, comma, bracket spanning any number of lines,
+   string literal written with any escape sequences, quotes, continuation lines, backtick string): the position right after the
+   last character of the token's source spelling `src` (the token's own text; for a string literal the text from its opening
+   quote to the closing quote). *)
+Theorem C14_token_end : forall uni printable alms es asemi s line col progs ends stmt t,
+  parse_ends uni printable alms es asemi s line col = Ok (progs, ends) -> In stmt progs -> In t stmt ->
+  exists d src r, s = d ++ src ++ r /\ (t_line t, t_col t) = pos_after (line, col) d /\ spelled t src /\
+                  tok_end printable ends t = pos_after (line, col) (d ++ src).
+Proof. exact token_end_spec. Qed.
+Print Assumptions C14_token_end.
+
+(* "Expected semicolon(;)" of the repaired tokenizer (parse_r) cites the position right after the last token, of any kind
+   (C14_diag_pos / C14_error_end had to exclude string literals) ... *)
+Theorem C14_expected_semicolon_end : forall uni printable alms es asemi s line col l c,
+  parse_r uni printable alms es asemi s line col = Diag DExpectedSemicolon l c ->
+  exists t d src r, s = d ++ src ++ r /\ (t_line t, t_col t) = pos_after (line, col) d /\ spelled t src /\
+                    (l, c) = pos_after (line, col) (d ++ src).
+Proof. exact parse_r_semicolon. Qed.
+Print Assumptions C14_expected_semicolon_end.
+
+(* ... and parse_r is Model.Tok.parse in everything else: same tokens, same diagnostic, same position unless the diagnostic
+   is "Expected semicolon(;)"; never a crash where the other has none (the theorems about Model.Tok.parse carry over). *)
+Theorem C14_parse_r_same_outcome : forall uni printable alms es asemi s line col,
+  match parse uni printable alms es asemi s line col, parse_r uni printable alms es asemi s line col with
+  | Ok a, Ok b => a = b
+  | Diag d l c, Diag d' l' c' => d = d' /\ (d <> DExpectedSemicolon -> l = l' /\ c = c')
+  | Crash e, Crash e' => e = e'
+  | _, _ => False
+  end.
+Proof. exact parse_r_vs_parse. Qed.
+Print Assumptions C14_parse_r_same_outcome.
+
+(* Token.length.  For a token whose source spelling lies on one line the end column is start + |src|: a `col + L` end is
+   right IF AND ONLY IF L is the length of the spelling AS WRITTEN ... *)
+Theorem C14_end_col_is_source_length : forall p0 d src (t : token) L,
+  (t_line t, t_col t) = pos_after p0 d -> has_nl src = false ->
+  ((t_line t, t_col t + L) = pos_after p0 (d ++ src) <-> L = Z.of_nat (List.length src)).
+Proof. exact end_col_is_source_length. Qed.
+Print Assumptions C14_end_col_is_source_length.
+
+(* ... so the variant the fourth round of bug seeding planted, len(string) + 2, is right exactly for literals that are two
+   characters longer than their decoded text - never for a literal written with an escape sequence. *)
+Theorem C14_plain_length_right_iff : forall p0 d src (t : token),
+  (t_line t, t_col t) = pos_after p0 d -> has_nl src = false ->
+  ((t_line t, t_col t + plain_len t) = pos_after p0 (d ++ src) <-> List.length src = (List.length (t_str t) + 2)%nat).
+Proof. exact plain_len_right_iff. Qed.
+Print Assumptions C14_plain_length_right_iff.
+
+(* The tree before fixes/C14-string-literal-end.patch (col + len(repr(string)); Model.Tok.parse keeps that arithmetic):
+   `say` + the literal a-backslash-quote-b without a semicolon cites column 10, inside the literal, which ends at 11. *)
+Theorem C14_repr_length_refuted : forall uni printable,
+  exists s l c l' c', parse uni printable false true false s 1 1 = Diag DExpectedSemicolon l c /\
+                      parse_r uni printable false true false s 1 1 = Diag DExpectedSemicolon l' c' /\
+                      (l', c') = pos_after (1, 1) s /\ c < c'.
+Proof. exact p_repr_length_refuted. Qed.
+Print Assumptions C14_repr_length_refuted.
+
+(* hypotheses satisfiable: two literals written with escapes and a continuation line; recorded ends computed *)
+Example C14_token_end_nonvacuous :
+  match parse_ends (fun _ => None) (fun _ => true) false true false (of_string "say ""a\x41b"" 'c\
+d';"%string) 1 1 with
+  | Ok ([[_; a; b]], ends) =>
+    tok_end (fun _ => true) ends a = (1, 13) /\ tok_end (fun _ => true) ends b = (2, 3) /\
+    tok_length (fun _ => true) a = 5 /\ tok_len_r (fun _ => true) a (lookup_end (1, 5) ends) = 8
+  | _ => False
+  end.
 Proof. vm_compute. repeat split. Qed.
